@@ -87,9 +87,43 @@ pub fn late_registration() -> Option<(String, String)> {
     let src = MemSource::new(true);
     src.tree().put("g", "w", b"0".to_vec(), Variant::Buffer);
     src.tree().put("x", "w", b"5".to_vec(), Variant::Buffer);
-    let cache = AssetCache::with_source(src.handle());
+    let mut cache = AssetCache::with_source(src.handle());
+    // Before anything else: a notification about a loaded asset's file is examined by the idle reloader, then the
+    // cache is cleared and the asset loaded again: that load read what the notification was about, and clear()
+    // forgets what was pending: hot_reload does not reload it.
+    {
+        src.tree().put("z", "w", b"7".to_vec(), Variant::Buffer);
+        let _ = cache.load::<W8>("z").expect("load z");
+        std::thread::sleep(std::time::Duration::from_millis(2));
+        let takes = Arc::new(AtomicU64::new(0));
+        let t2 = takes.clone();
+        verif::set_schedule_hook(Some(Arc::new(move |point| {
+            if point == 1 {
+                t2.fetch_add(1, SeqCst);
+            }
+        })));
+        src.tree().put("z", "w", b"8".to_vec(), Variant::Buffer);
+        src.send(&OwnedEntry::File("z".into(), "w".into()));
+        src.send(&OwnedEntry::File("z_other".into(), "w".into()));
+        let t = std::time::Instant::now();
+        while takes.load(SeqCst) < 2 && t.elapsed().as_millis() < 100 {
+            std::thread::sleep(std::time::Duration::from_micros(200));
+        }
+        let examined = takes.load(SeqCst) >= 2;
+        verif::set_schedule_hook(None);
+        cache.clear();
+        let z = cache.load::<W8>("z").expect("load z again");
+        cache.hot_reload();
+        cache.hot_reload();
+        if examined && (z.last_reload_id() != ReloadId::NEVER || z.reloaded_global()) {
+            return Some((
+                "reloaded-without-notification".into(),
+                format!("a change of z was notified and examined, then the cache was cleared and z loaded again: nothing was notified since, yet hot_reload reloaded z (last_reload_id {:?})", z.last_reload_id()),
+            ));
+        }
+    }
     let _g = cache.load::<W8>("g").expect("load g");
-    // First the simple order: a notification about a file nobody uses is examined while the reloader is idle (the
+    // Then the simple order: a notification about a file nobody uses is examined while the reloader is idle (the
     // second wake-up of the reloader proves that the first event has been examined); then an asset reading that
     // file is loaded; it was loaded after the notification: hot_reload does not reload it.
     {
@@ -191,11 +225,31 @@ pub fn gated_callers(callers: u8, rounds: u16, slow_us: u64) -> Result<u64, (Str
     let windows = AtomicU64::new(0);
     SLOW_LOADER_US.store(slow_us, SeqCst);
     std::thread::scope(|s| {
-        for _ in 0..callers {
-            s.spawn(|| {
+        for c in 0..callers {
+            let (cache, src, gate, stop, problem) = (&cache, &src, &gate, &stop, &problem);
+            s.spawn(move || {
+                // each caller also has an asset of its own: it changes it, notifies, calls hot_reload and then
+                // reads it: the call does not return before that change is applied, whoever else is calling
+                let mine = format!("p{c}");
+                src.tree().put(&mine, "w", b"0".to_vec(), Variant::Buffer);
+                let own = cache.load::<W8>(&mine).expect("load own asset");
+                let mut v = 0u64;
                 while !stop.load(SeqCst) {
                     let _inside = gate.read().unwrap();
+                    v += 1;
+                    if v < SLOW_BASE {
+                        src.tree().put(&mine, "w", v.to_string().into_bytes(), Variant::Buffer);
+                        src.send(&OwnedEntry::File(mine.clone(), "w".into()));
+                    }
                     cache.hot_reload();
+                    let got = validate(own.read().words());
+                    if v < SLOW_BASE && got != Ok(v) {
+                        problem.lock().unwrap().get_or_insert((
+                            "hot-reload-returned-before-notified-change".into(),
+                            format!("{callers} threads call hot_reload at the same time; one of them changed its own asset to version {v} and notified it before its call: after the call returned the asset reads {got:?}"),
+                        ));
+                        stop.store(true, SeqCst);
+                    }
                 }
             });
         }
@@ -222,7 +276,7 @@ pub fn gated_callers(callers: u8, rounds: u16, slow_us: u64) -> Result<u64, (Str
                 let (v2, id2) = (validate(h.read().words()), h.last_reload_id());
                 windows.fetch_add(1, SeqCst);
                 if v1 != v2 || id1 != id2 {
-                    *problem.lock().unwrap() = Some((
+                    problem.lock().unwrap().get_or_insert((
                         "changed-outside-hot-reload".into(),
                         format!("{callers} threads call hot_reload under the read side of a gate; while the observer held the write side (no thread inside hot_reload) the value/id changed from ({v1:?}, {id1:?}) to ({v2:?}, {id2:?}): a request was served after its caller had been released"),
                     ));
